@@ -162,3 +162,21 @@ Proof.
   destruct (update_file_text_correct s sol f' U) as [t [T L]].
   exists t. unfold parse_cms_text, parse_unigen_text. rewrite L. repeat split; assumption.
 Qed.
+
+(** * Sampler output, on the characters *)
+Lemma sampler_output_roundtrip_chars :
+  (forall samples, lex_file (unigen_format_text samples) = unigen_format samples /\
+                   parse_sampler_text (unigen_format_text samples)
+                   = Some (map (fun smp => (smp, 1)) samples)) /\
+  (forall ss sols, sols <> [] ->
+                   lex_file (cmsgen_format_text ss sols) = cmsgen_format ss sols) /\
+  (forall ss sols, parse_sampler_text (cmsgen_format_text ss sols)
+                   = Some (map (fun sol => (map (cms_lit sol) ss, 0)) sols)).
+Proof.
+  split; [|split].
+  - intros samples. split; [apply lex_unigen_format_text|].
+    unfold parse_sampler_text. rewrite lex_unigen_format_text. apply parse_sampler_unigen.
+  - intros ss sols H. now apply lex_cmsgen_format_text.
+  - intros ss sols. unfold parse_sampler_text. destruct sols as [|s r]; [reflexivity|].
+    rewrite lex_cmsgen_format_text by discriminate. apply parse_sampler_cmsgen.
+Qed.
